@@ -59,6 +59,7 @@ FAULT_CLASSES = {
     "AssertionError": AssertionError,
     "KeyError": KeyError,
     "AttributeError": AttributeError,
+    "StopIteration": StopIteration,
     "CancelledError": asyncio.CancelledError,
 }
 
@@ -992,7 +993,7 @@ class World:
                 if _content == "le2":
 
                     def c(self):
-                        return run.hit(_sid, "inv", self) and len(self) <= 2
+                        return run.hit(_sid, "inv", self) and list.__len__(self) <= 2
 
                 else:
 
